@@ -3,6 +3,7 @@ import Proofs.C02Sound
 import Proofs.C02Depth
 import Proofs.C02Shape
 import Proofs.C02Compile
+import Proofs.C02Str
 /-! Property theorems for C02 (see /verif/DESIGN.md). Only property theorems and non-vacuity examples live here. -/
 namespace GoawkModel.C02
 open GoawkModel.Generated
@@ -215,5 +216,69 @@ example : ∀ i ∈ cStmt 0 0 prog, Fits t tb topCtx i := by
 /-- on this instance the executable verifier agrees with the certificate -/
 example : verify { tables := t, blocks := [(encode tb (cStmt 0 0 prog), 0)] } = true := by decide +kernel
 end CompileExample
+
+/-! ## 6. substr() never slices outside its string — byte mode and character mode, any bytes, any numbers
+
+The strings are arbitrary byte strings (valid UTF-8 or not: stray continuation bytes, sequences truncated at the start, in the
+middle or at the end, overlong forms, surrogates, 0xFF), the positions and lengths arbitrary integers. `stuck` is Go's
+"slice bounds out of range" panic of the final `s[lo:hi]` (and of `s[start:]` inside `substrLengthChars`). The model functions
+are compared byte for byte with the interpreter's substr() by the harness (stream `substr-model`). -/
+
+theorem substrBytes_total (s : Bytes) (pos : Int) : substrBytes s pos ≠ .stuck := by
+  unfold substrBytes
+  dsimp only
+  apply slice_ok <;> (repeat' split) <;> omega
+
+theorem substrLengthBytes_total (s : Bytes) (pos length : Int) : substrLengthBytes s pos length ≠ .stuck := by
+  unfold substrLengthBytes
+  dsimp only
+  apply slice_ok <;> (repeat' split) <;> omega
+
+theorem substrChars_total (s : Bytes) (pos : Int) : substrChars s pos ≠ .stuck := by
+  unfold substrChars
+  have := charStart_le s pos
+  apply slice_ok <;> omega
+
+theorem substrLengthChars_total (s : Bytes) (pos length : Int) : substrLengthChars s pos length ≠ .stuck := by
+  unfold substrLengthChars
+  dsimp only
+  have hs := charStart_le s pos
+  rw [if_neg (by omega)]
+  have he : (if length ≥ (rangeLoop length (runeStarts (s.drop (charStart s pos))) 0 0).2 then s.length
+      else (rangeLoop length (runeStarts (s.drop (charStart s pos))) 0 0).1 + charStart s pos) ≤ s.length ∧
+      charStart s pos ≤ (if length ≥ (rangeLoop length (runeStarts (s.drop (charStart s pos))) 0 0).2 then s.length
+      else (rangeLoop length (runeStarts (s.drop (charStart s pos))) 0 0).1 + charStart s pos) := by
+    split
+    · exact ⟨Nat.le_refl _, hs⟩
+    · rcases rangeLoop_start length (runeStarts (s.drop (charStart s pos))) 0 0 with h | h
+      · rw [h]; omega
+      · have := runeStarts_lt _ _ h
+        simp only [List.length_drop] at this
+        omega
+  apply slice_ok <;> omega
+
+/-- For every byte string, in both modes, for every pair of doubles that reaches substr() — NaN, ±Inf, huge, negative,
+fractional — the call returns a string: no slice expression in it is out of range. -/
+theorem substr_total (chars : Bool) (s : Bytes) (x : Num) (y : Option Num) : substr chars s x y ≠ .stuck := by
+  unfold substr
+  split
+  · exact substrBytes_total _ _
+  · exact substrLengthBytes_total _ _ _
+  · exact substrChars_total _ _
+  · exact substrLengthChars_total _ _ _
+
+/-- the width the character loop steps by never leaves the string (what `%c` of a string argument slices by in character mode) -/
+theorem runeWidth_in_string (b : UInt8) (rest : Bytes) : 1 ≤ runeWidth (b :: rest) ∧ runeWidth (b :: rest) ≤ (b :: rest).length :=
+  ⟨runeWidth_pos b rest, runeWidth_le _⟩
+
+/-- "caf" followed by the first byte of a two-byte character, character mode: substr(s, 5) is empty, substr(s, 4, 1) is the
+stray byte, substr(s, 2, 9) the rest — the inputs on which stepping by the length the lead byte ANNOUNCES would slice s[5:4] -/
+example : substrChars [0x63, 0x61, 0x66, 0xC3] 5 = .ok [] ∧ substrLengthChars [0x63, 0x61, 0x66, 0xC3] 4 1 = .ok [0xC3] ∧
+    substrLengthChars [0x63, 0x61, 0x66, 0xC3] 2 9 = .ok [0x61, 0x66, 0xC3] := by decide
+/-- a whole character is one step: "aé€" -/
+example : runeStarts [0x61, 0xC3, 0xA9, 0xE2, 0x82, 0xAC] = [0, 1, 3] ∧ substrLengthChars [0x61, 0xC3, 0xA9, 0xE2, 0x82, 0xAC] 2 1 = .ok [0xC3, 0xA9] := by decide
+/-- `stuck` is reachable by the slice expression itself: the theorems are about the arithmetic in front of it -/
+example : slice [1, 2] 3 2 = .stuck ∧ slice [1, 2] 1 3 = .stuck ∧ slice [1, 2] (-1) 1 = .stuck ∧ slice [1, 2] 1 2 = .ok [2] := by decide
+example : substr true [0xC3] .nan (some (.inf false)) = .ok [0xC3] ∧ substr false [0x61, 0x62] (.fin false 1 1) (some (.fin true 1 0)) = .ok [] := by decide
 
 end GoawkModel.C02
